@@ -168,6 +168,7 @@ func cpuTime() time.Duration {
 
 func (c *runCtx) startWatchdog() {
 	c.current.Store("")
+	watchCtx = c
 	go func() {
 		for {
 			time.Sleep(500 * time.Millisecond)
@@ -307,7 +308,25 @@ func chainOf(m *mimetype.MIME) string {
 }
 
 // detectAt runs Detect(x) at the given limit under recover. ok=false on panic / nil.
+// every detection the harness makes is under the watchdog, also those made outside a numbered case (histories,
+// probes, stress loops): when no case is being watched, the call itself is
+var watchCtx *runCtx
+
+func watchCall(x []byte, limit uint32) func() {
+	w := watchCtx
+	if w == nil || w.started.Load() != 0 {
+		return func() {}
+	}
+	k := x
+	if len(k) > 300 {
+		k = k[:300]
+	}
+	w.watch(fmt.Sprintf("Detect outside a numbered case: limit=%d input(prefix)=%s", limit, hx(k)))
+	return func() { w.started.Store(0) }
+}
+
 func detectAt(x []byte, limit uint32) (m *mimetype.MIME, panicked any) {
+	defer watchCall(x, limit)()
 	defer func() {
 		if e := recover(); e != nil {
 			panicked = e
@@ -334,6 +353,7 @@ func min(a, b int) int {
 
 // detectAtNoSet runs Detect without touching the global limit.
 func detectAtNoSet(x []byte) (m *mimetype.MIME, panicked any) {
+	defer watchCall(x, 0)()
 	defer func() {
 		if e := recover(); e != nil {
 			panicked = e
